@@ -1,0 +1,11 @@
+//go:build verif && noquotas
+// +build verif,noquotas
+
+package runtime
+
+func verifCheckLive(t *Thread, what string) {}
+
+func verifRequired(m *runtimeContextManager, kind int, amount uint64) {}
+
+// VerifContextDepth returns the number of contexts on the context stack.
+func VerifContextDepth(r *Runtime) int { return 1 }
